@@ -98,6 +98,20 @@ def build(spec):
                 return Fail("s_betweenness")
             if not same_dict(sc.s_closeness(h, s=s), nx.closeness_centrality(g)):
                 return Fail("s_closeness")
+            # the same object is rewired (one hyperedge out, another in: node and hyperedge counts unchanged) and asked
+            # again with the same s: the answer must follow the new content
+            absent = [tuple(sorted(c)) for c, b in zip(cands, bits) if not b]
+            if present and absent:
+                h.remove_edge(present[0])
+                h.add_edge(absent[0])
+                present2 = present[1:] + [absent[0]]
+                g2 = ref_line(present2, s)
+                if not same_dict(sc.s_betweenness(h, s=s), nx.betweenness_centrality(g2)):
+                    return Fail("s_betweenness:after-rewiring-the-same-object")
+                if not same_dict(sc.s_closeness(h, s=s), nx.closeness_centrality(g2)):
+                    return Fail("s_closeness:after-rewiring-the-same-object")
+                h.remove_edge(absent[0])
+                h.add_edge(present[0])
             # relabelling: values are carried along
             perm = dict(zip(nodes, list(reversed(nodes))))
             h2 = hypergraphx.Hypergraph()
